@@ -16,7 +16,8 @@ BoxesOK(r) == Structured(Boxes(r.stu, r.pos), r.pos, r.aut) = Effective(r.aut, r
 Check(i) == LET r == Trace[i]
                 e == Expected(r)
             IN IF ~BoxesOK(r) THEN PrintT(<<"REJECT", r.id, {"boxes"}>>)
-               ELSE IF r.obs \in e THEN TRUE ELSE PrintT(<<"REJECT", r.id, e>>)
+               \* e = Classes: the statement is silent on this case, no prediction -- whatever happened is accepted
+               ELSE IF e = Classes \/ r.obs \in e THEN TRUE ELSE PrintT(<<"REJECT", r.id, e>>)
 Init == l = 0
 Next == /\ l < Len(Trace)
         /\ l' = l + 1
